@@ -275,9 +275,25 @@ def exhaustive_items(index, of):
         k += 1
 
 
+def exhaustive_binary_items(index, of):
+    """All pairs of two-parameter overloads (x: int|str|object; y: int|str, positional-or-keyword or
+    keyword-only, with or without a default) x call shapes f(a, b) / f(a, y=b) / f(a) x argument types
+    from {int, str, Any, int | str}."""
+    second = [("y", kind, t, d) for kind in ("pk", "ko") for t in ("int", "str") for d in (False, True)]
+    ovs_all = [[("x", "pk", tx, False), y] for tx in ("int", "str", "object") for y in second]
+    args = ["int", "str", "Any", "int | str"]
+    calls = [(2, [], [a, b]) for a in args for b in args] + [(1, ["y"], [a, b]) for a in args for b in args] + [(1, [], [a]) for a in args]
+    k = 0
+    for o1, o2 in itertools.product(ovs_all, repeat=2):
+        if k % of == index:
+            yield [o1, o2], calls
+        k += 1
+
+
 def shards(tier, seed):
     n = 16
     out = [{"mode": "exhaustive", "index": i, "of": n} for i in range(n)]
+    out += [{"mode": "exhaustive-binary", "index": i, "of": 8} for i in range(8)]
     out += [{"mode": "random", "index": i, "modules": 6 if tier == "quick" else 300} for i in range(n)]
     return out
 
@@ -285,9 +301,10 @@ def shards(tier, seed):
 def run_shard(spec):
     col = runner.Collector(spec)
     checker = sut.new_checker()
-    if spec["mode"] == "exhaustive":
+    if spec["mode"] in ("exhaustive", "exhaustive-binary"):
         batch = []
-        for item in exhaustive_items(spec["index"], spec["of"]):
+        gen = exhaustive_items if spec["mode"] == "exhaustive" else exhaustive_binary_items
+        for item in gen(spec["index"], spec["of"]):
             batch.append(item)
             if len(batch) == 12:
                 for key, what, case in judge(batch, checker, col):
@@ -299,7 +316,8 @@ def run_shard(spec):
             for key, what, case in judge(batch, checker, col):
                 col.fail(key, what, case)
         col.extra["exhaustive"] = not col.budget_hit
-        col.extra["exhaustive_bounds"] = ["all pairs of unary overloads over the 12-type vocabulary and all triples over 8 types, x 19 argument types"]
+        col.extra["exhaustive_bounds"] = ["all pairs of unary overloads over the 12-type vocabulary and all triples over 8 types, x 19 argument types",
+                                          "all pairs of two-parameter overloads (second parameter pk/ko, with/without default) x 3 call shapes x {int, str, Any, int | str}"]
         return col.result()
     seed = runner.mix_seed(spec["seed"], ID, spec["name"])
 
